@@ -120,15 +120,22 @@ pub fn apply_mutation(spec: &GraphSpec, m: &Mutation) -> GraphSpec {
 
 /// Arbitrary builder call sequence: self edges, reversed and repeated pairs.
 pub fn decode_build_case(t: &mut Tape, x: &mut Tape, max_n: usize, cap: Option<u64>) -> BuildCase {
-    let n = if t.chance(1, 12) {
+    // one case in twenty-four is large (65..=120 functions) with sparse access
+    // declarations and sparse edges: few conflicts in a big graph
+    let large = max_n >= 24 && t.chance(1, 24);
+    let n = if large {
+        65 + t.below(56)
+    } else if t.chance(1, 12) {
         9 + t.below(max_n.saturating_sub(8).max(1))
     } else {
         t.below(9.min(max_n + 1))
     };
     // one case in eight uses the large type universe with dense declarations, so
     // that functions declare more than 8 accesses (mixed reads and writes)
-    let many = t.chance(1, 8);
-    let n_types = if many {
+    let many = !large && t.chance(1, 8);
+    let n_types = if large {
+        1 + t.below(3) as u8
+    } else if many {
         // 9..=24 types usually, sometimes the whole universe (more than 64 types)
         if t.chance(1, 4) {
             65 + t.below((N_TYPES_MAX - 64) as usize) as u8
@@ -138,7 +145,13 @@ pub fn decode_build_case(t: &mut Tape, x: &mut Tape, max_n: usize, cap: Option<u
     } else {
         1 + t.below(N_TYPES as usize) as u8
     };
-    let den = if many { [3usize, 2, 3, 4][t.below(4)] } else { [4usize, 3, 6, 10][t.below(4)] };
+    let den = if large {
+        [12usize, 24, 48, 96][t.below(4)]
+    } else if many {
+        [3usize, 2, 3, 4][t.below(4)]
+    } else {
+        [4usize, 3, 6, 10][t.below(4)]
+    };
     let mut fns = Vec::with_capacity(n);
     for id in 0..n {
         let mut reads = vec![];
@@ -243,7 +256,11 @@ pub fn decode_build_case(t: &mut Tape, x: &mut Tape, max_n: usize, cap: Option<u
             }
         }
     } else if n >= 1 {
-        let max_m = [n, n / 2, 2 * n, n * n.saturating_sub(1) / 2 + 2][t.below(4)];
+        let max_m = if large {
+            [n / 4, n / 2, n, n / 8][t.below(4)]
+        } else {
+            [n, n / 2, 2 * n, n * n.saturating_sub(1) / 2 + 2][t.below(4)]
+        };
         let m = t.below(max_m + 1);
         // fraction of calls that ignore the hidden order (cycle attempts, self edges)
         let wild = [0usize, 8, 3, 1][t.below(4)];
@@ -947,10 +964,47 @@ pub fn check_c14(case: &BuildCase, b: &mut Built, f: &BuildFacts) -> Vec<Violati
 }
 
 // ------------------------------------------------------------------ C17
+/// What the caller's function maps a node to.  Deliberately not just a string:
+/// a data-carrying enum (externally tagged: a YAML tag), 128-bit integers, an
+/// option and a tuple, all derived from the generated label.
+#[derive(Clone, Debug, PartialEq, Eq, Serialize, Deserialize)]
+pub enum NodeKind {
+    Plain,
+    Writes(String),
+    Pair(u8, i64),
+    Rec { a: Option<u32>, b: (u8, String) },
+}
+
 #[derive(Clone, Debug, PartialEq, Eq, Serialize, Deserialize)]
 pub struct NodeInfo {
     pub id: usize,
     pub label: String,
+    pub kind: NodeKind,
+    pub big: u128,
+    pub neg: i128,
+    pub opt: Option<u8>,
+}
+
+impl NodeInfo {
+    pub fn of(id: usize, label: &str) -> NodeInfo {
+        let b = label.as_bytes();
+        let h = b.iter().fold(id as u64 + 7, |a, c| a.wrapping_mul(31).wrapping_add(*c as u64));
+        let kind = match h % 4 {
+            0 => NodeKind::Plain,
+            1 => NodeKind::Writes(label.to_string()),
+            2 => NodeKind::Pair(b.len() as u8, -(h as i64 & 0xffff)),
+            _ => NodeKind::Rec { a: if h % 8 == 3 { None } else { Some(h as u32) }, b: (id as u8, label.to_uppercase()) },
+        };
+        NodeInfo {
+            id,
+            label: label.to_string(),
+            kind,
+            // beyond u64 / i64 for labels of even length
+            big: if b.len() % 2 == 0 { (h as u128) << 64 | 5 } else { h as u128 },
+            neg: if b.len() % 3 == 0 { -((h as i128) << 64) } else { -(h as i128 & 0xff) },
+            opt: if h % 5 == 0 { None } else { Some(h as u8) },
+        }
+    }
 }
 
 pub fn check_c17(case: &BuildCase, b: &Built, f: &BuildFacts) -> Vec<Violation> {
@@ -961,17 +1015,32 @@ pub fn check_c17(case: &BuildCase, b: &Built, f: &BuildFacts) -> Vec<Violation> 
     let r = catch_unwind(AssertUnwindSafe(|| {
         let mut out = vec![];
         let labels = &case.labels;
-        let gi = GraphInfo::from_graph(&b.g, |f| NodeInfo {
-            id: f.id,
-            label: labels.get(f.id).cloned().unwrap_or_default(),
+        let gi = GraphInfo::from_graph(&b.g, |f| {
+            NodeInfo::of(f.id, labels.get(f.id).map(|s| s.as_str()).unwrap_or(""))
         });
         let nodes: Vec<NodeInfo> = gi.graph.raw_nodes().iter().map(|n| n.weight.clone()).collect();
         let exp_nodes: Vec<NodeInfo> = (0..n)
-            .map(|i| NodeInfo {
-                id: i,
-                label: labels.get(i).cloned().unwrap_or_default(),
-            })
+            .map(|i| NodeInfo::of(i, labels.get(i).map(|s| s.as_str()).unwrap_or("")))
             .collect();
+        // GraphInfo must not restrict what a node can be: a serialisation route is
+        // required to round-trip the GraphInfo whenever it round-trips the bare
+        // node list (serde_json::Value, for one, cannot hold integers beyond 64 bits)
+        let route_json_str = serde_json::to_string(&exp_nodes)
+            .ok()
+            .and_then(|s| serde_json::from_str::<Vec<NodeInfo>>(&s).ok())
+            .is_some_and(|b| b == exp_nodes);
+        let route_json_value = serde_json::to_value(&exp_nodes)
+            .ok()
+            .and_then(|v| serde_json::from_value::<Vec<NodeInfo>>(v).ok())
+            .is_some_and(|b| b == exp_nodes);
+        let route_json_reader = serde_json::to_vec(&exp_nodes)
+            .ok()
+            .and_then(|v| serde_json::from_reader::<_, Vec<NodeInfo>>(std::io::Cursor::new(v)).ok())
+            .is_some_and(|b| b == exp_nodes);
+        let route_yaml = serde_yaml_ng::to_string(&exp_nodes)
+            .ok()
+            .and_then(|s| serde_yaml_ng::from_str::<Vec<NodeInfo>>(&s).ok())
+            .is_some_and(|b| b == exp_nodes);
         if nodes != exp_nodes {
             out.push(v("C17", "nodes-differ", format!("GraphInfo nodes {nodes:?}")));
         }
@@ -996,6 +1065,8 @@ pub fn check_c17(case: &BuildCase, b: &Built, f: &BuildFacts) -> Vec<Violation> 
             ));
         }
         // round trips
+        if !route_json_str {
+        } else {
         match serde_json::to_string(&gi) {
             Err(e) => out.push(v("C17", "json-serialise", e.to_string())),
             Ok(s) => match serde_json::from_str::<GraphInfo<NodeInfo>>(&s) {
@@ -1026,7 +1097,9 @@ pub fn check_c17(case: &BuildCase, b: &Built, f: &BuildFacts) -> Vec<Violation> 
                 }
             },
         }
+        }
         // deserialisers that cannot lend the input (owned strings): value tree and reader
+        if route_json_value {
         match serde_json::to_value(&gi) {
             Err(e) => out.push(v("C17", "json-value-serialise", e.to_string())),
             Ok(val) => match serde_json::from_value::<GraphInfo<NodeInfo>>(val) {
@@ -1038,6 +1111,8 @@ pub fn check_c17(case: &BuildCase, b: &Built, f: &BuildFacts) -> Vec<Violation> 
                 }
             },
         }
+        }
+        if route_json_reader {
         match serde_json::to_vec(&gi) {
             Err(e) => out.push(v("C17", "json-serialise", e.to_string())),
             Ok(bytes) => match serde_json::from_reader::<_, GraphInfo<NodeInfo>>(std::io::Cursor::new(bytes)) {
@@ -1049,6 +1124,8 @@ pub fn check_c17(case: &BuildCase, b: &Built, f: &BuildFacts) -> Vec<Violation> 
                 }
             },
         }
+        }
+        if route_yaml {
         match serde_yaml_ng::to_string(&gi) {
             Err(e) => out.push(v("C17", "yaml-serialise", e.to_string())),
             Ok(s) => match serde_yaml_ng::from_str::<GraphInfo<NodeInfo>>(&s) {
@@ -1061,6 +1138,7 @@ pub fn check_c17(case: &BuildCase, b: &Built, f: &BuildFacts) -> Vec<Violation> 
                     }
                 }
             },
+        }
         }
         // iteration
         let ids: Vec<usize> = gi.iter().map(|n| n.id).collect();
@@ -1082,6 +1160,18 @@ pub fn check_c17(case: &BuildCase, b: &Built, f: &BuildFacts) -> Vec<Violation> 
         out
     }));
     r.unwrap_or_else(|_| vec![v("C17", "panic", "GraphInfo operation panicked".into())])
+}
+
+/// Which serialisation routes round-trip the bare node list of this case (the
+/// routes on which C17 is then required of the GraphInfo).
+pub fn c17_routes(case: &BuildCase) -> [bool; 4] {
+    let nodes: Vec<NodeInfo> = case.labels.iter().enumerate().map(|(i, l)| NodeInfo::of(i, l)).collect();
+    [
+        serde_json::to_string(&nodes).ok().and_then(|s| serde_json::from_str::<Vec<NodeInfo>>(&s).ok()).is_some_and(|b| b == nodes),
+        serde_json::to_value(&nodes).ok().and_then(|v| serde_json::from_value::<Vec<NodeInfo>>(v).ok()).is_some_and(|b| b == nodes),
+        serde_json::to_vec(&nodes).ok().and_then(|v| serde_json::from_reader::<_, Vec<NodeInfo>>(std::io::Cursor::new(v)).ok()).is_some_and(|b| b == nodes),
+        serde_yaml_ng::to_string(&nodes).ok().and_then(|s| serde_yaml_ng::from_str::<Vec<NodeInfo>>(&s).ok()).is_some_and(|b| b == nodes),
+    ]
 }
 
 // ------------------------------------------------------------------ C18
@@ -1209,7 +1299,7 @@ impl BuildCheck {
             prop,
             max_n: if thorough { 40 } else { 32 },
             cap,
-            tape_lens: if thorough { [900, 60] } else { [700, 60] },
+            tape_lens: if thorough { [1300, 60] } else { [1100, 60] },
         }
     }
     pub fn decode(&self, tapes: &[Vec<u16>]) -> BuildCase {
@@ -1270,10 +1360,26 @@ impl Check for BuildCheck {
             "C12" | "C14" | "C17" => hash_of(&case),
             _ => hash_of(&case.spec),
         };
+        let mut labels = build_labels(&case, &ev);
+        if self.prop == "C17" {
+            let r = c17_routes(&case);
+            for (i, name) in ["json_text", "json_value", "json_reader", "yaml"].iter().enumerate() {
+                if r[i] {
+                    labels.push(format!("route_applies:{name}"));
+                }
+            }
+            let nodes: Vec<NodeInfo> = case.labels.iter().enumerate().map(|(i, l)| NodeInfo::of(i, l)).collect();
+            if nodes.iter().any(|n| !matches!(n.kind, NodeKind::Plain)) {
+                labels.push("node_info:has_data_carrying_enum".into());
+            }
+            if nodes.iter().any(|n| n.big > u64::MAX as u128 || n.neg < i64::MIN as i128) {
+                labels.push("node_info:has_integer_beyond_64_bits".into());
+            }
+        }
         CaseReport {
             nontrivial,
             hash,
-            labels: build_labels(&case, &ev),
+            labels,
             decoded: if want_decoded { Some(build_decoded(&case)) } else { None },
             violations: ev.violations,
             executions: ev.executions,
